@@ -193,6 +193,12 @@ def prepare_evo_aspirate_dispense_parameters(
             # User-specified integers from 1-8 need to be converted to Tecan logic
             tip = int_to_tip(tip)
         tecan_tips.append(tip)
+    # EVOware pairs the selected tips in ascending order with the selected wells in ascending row order.
+    # Anything else cannot be expressed by a single command.
+    if any(t2 <= t1 for t1, t2 in zip(tecan_tips, tecan_tips[1:])):
+        raise ValueError("Invalid tips: tips must be unique and given in ascending order.")
+    if any(w2 <= w1 for w1, w2 in zip(wells_list, wells_list[1:])):
+        raise ValueError("Invalid wells: wells must be unique and given in ascending order.")
 
     if arm is None:
         raise ValueError("Missing required paramter: arm")
@@ -624,8 +630,8 @@ def evo_wash(
         fastwash=fastwash,
         low_volume=low_volume,
     )
-    # calculate tip_selection based on tips argument
+    # calculate tip_selection based on tips argument (bitwise OR: a repeated tip is still one tip)
     tip_selection = 0
     for tip in tips:
-        tip_selection += tip.value
+        tip_selection |= tip.value
     return f'B;Wash({tip_selection},{waste_location[0]},{waste_location[1]},{cleaner_location[0]},{cleaner_location[1]},"{waste_vol}",{waste_delay},"{cleaner_vol}",{cleaner_delay},{airgap},{airgap_speed},{retract_speed},{fastwash},{low_volume},1000,{arm});'
